@@ -260,10 +260,13 @@ func c01Scenario(r *vf.Run, t *testing.T, id string, rng *rand.Rand, g genOpts, 
 
 func c01Outcome(r *vf.Run, id string, res rt.CaseResult, triggers []string, replay any, rulePrefix string) {
 	if rej := rt.TakeRejected(); len(rej) > 0 {
-		if rulePrefix == "C14" || rulePrefix == "C18" {
-			// an increment of 0, or a frame no conforming reader accepts, is part of what these properties forbid
+		switch rulePrefix {
+		case "C14", "C18", "C01", "C02", "C06", "C07":
+			// an increment of 0, or a frame no conforming reader accepts, is part of what C14 and C18 forbid; in C01/C02/C06/C07
+			// the peer is a conforming endpoint, which answers such a frame with a stream or connection error: the message the
+			// property says it receives intact is lost
 			r.Fail(rulePrefix+".frame-rejected-by-independent-reader", id, strings.Join(rej, "\n"), triggers, replay)
-		} else {
+		default:
 			r.Inc("frames_of_the_library_rejected_by_the_independent_reader", int64(len(rej)))
 		}
 	}
@@ -319,7 +322,7 @@ func TestC01(t *testing.T) {
 		"fasthttp's API is value-preserving for the compared accessors (Method, RequestURI, Host, Header.All, Body)",
 		"x/net http2 Framer and hpack decoder read the server's frames correctly")
 	n := r.Pick(500, 30000)
-	g := genOpts{MaxBody: r.Pick(40000, 300000), AllowTrail: true, AllowUnder: true, RespStream: true, AllowStream2: true, MaxRespBody: r.Pick(100000, 300000)}
+	g := genOpts{MaxBody: r.Pick(40000, 300000), AllowTrail: true, AllowUnder: true, RespStream: true, AllowStream2: true, MaxRespBody: r.Pick(100000, 300000), SizeUpdates: true}
 	for i := 0; i < n; i++ {
 		id := fmt.Sprintf("s%d", i)
 		if !r.Want(i, id) {
